@@ -127,8 +127,41 @@ func (f *fragment) Move(part *partitions.Partition, name string, owners []discov
 		verifhook.Point(f.service.rt.This().Name, "move.after-send")
 	}
 
+	if part.Kind() == partitions.PRIMARY && f.service.isBackupOwner(part.ID()) {
+		// This member hands the primary copy over but it is a backup owner of the same
+		// partition now. Nobody else fills its backup fragment: the members that hold a
+		// backup copy keep it, the new primary owner doesn't replicate what it receives.
+		// Keep the data as the backup copy, otherwise the partition loses a replica.
+		if err = f.keepAsBackup(part.ID(), fp.Name, payload); err != nil {
+			return err
+		}
+	}
+
 	verifhook.Point(f.service.rt.This().Name, "move.before-drop")
 	return i.Drop(index)
+}
+
+func (s *Service) isBackupOwner(partID uint64) bool {
+	for _, owner := range s.backup.PartitionByID(partID).Owners() {
+		if owner.CompareByID(s.rt.This()) {
+			return true
+		}
+	}
+	return false
+}
+
+func (f *fragment) keepAsBackup(partID uint64, name string, payload []byte) error {
+	dm, err := f.service.NewDMap(name)
+	if err != nil {
+		return err
+	}
+	fp := &fragmentPack{
+		PartID:  partID,
+		Kind:    partitions.BACKUP,
+		Name:    name,
+		Payload: payload,
+	}
+	return dm.mergeFragments(f.service.backup.PartitionByID(partID), fp)
 }
 
 func (dm *DMap) newFragment() (*fragment, error) {
